@@ -8,12 +8,23 @@ RULE = ("Histories restricted to failing recipients: 1-5 recipients (local/remot
         "From/To header, exactly one paragraph per failed recipient starting '<recipient without prepend>:', text equal to the report modulo the "
         "documented newline squashing, marker + Return-Path + byte-identical original; at most one notice per original in fault-free histories; "
         "nothing queued for #@[] senders. Non-trivial = a notice was produced; distinct = scenario digest.")
-ASSUMPTIONS = ["one report per quiescent point, so the order of failures is the order of reports"]
+ASSUMPTIONS = ["one report per quiescent point, so the order of failures is the order of reports",
+               "single injected faults (one per run) are swept for one fixed bounce/double-bounce history and sampled for generated ones; under a fault more than one notice per original is accepted"]
 TAGS = ("C14",)
 
 
+CTL = {"me": "me.example\n", "locals": "loc.example\n", "virtualdomains": "virt.example:vuser\n"}
+# swept over ALL single faults (incl. those of the daemon's own qmail-queue child) in every run: a bounce and a double bounce
+FULLY_SWEPT = [
+    {"controls": CTL, "limits": [120, 120], "messages": [{"sender": "s@rem.example", "rcpts": ["joe@virt.example", "r@rem.example"], "body": "x\n"}],
+     "scripts": {"0:0": "D", "0:1": "ZD"}, "bscript": "D", "texts": ["no such user\n\n<forged@x>:\nline", "ok"], "tape": [], "actions": ["answer", "inject", "advance"],
+     "mode": {"kind": "none"}},
+]
+
+
 def run(ctx):
-    q.search(ctx, "C14", TAGS, 110, 1500)
+    q.search(ctx, "C14", TAGS, 0, 0, sweep={"all": True, "faults_only": True}, fixed=FULLY_SWEPT)
+    q.search(ctx, "C14", TAGS, 100, 1500, sweep={"fault": 2})
 
 
 def replay(ctx, path):
